@@ -205,6 +205,13 @@ func c07Run(rc *core.RunCtx) {
 		}
 		return []py.Object{pyInt(x)}
 	}
+	// (0) two-step histories: an operation whose operands may also be True/False, then a fixed
+	// probe set; the first result and the operands must still be what they were afterwards
+	rc.Part = "history"
+	c.history(L, ops)
+	if rc.Expired() || rc.Done() {
+		return
+	}
 	// (1) binary operators, Go API (both representations, normal and in-place) and source text
 	rc.Part = "binary"
 	for _, a := range L {
@@ -410,6 +417,18 @@ func c07Run(rc *core.RunCtx) {
 					}
 				}
 			}
+			if u.api == nil && (u.name == "bin" || u.name == "oct" || u.name == "hex") {
+				// the builtin called with the operand in each representation (a source literal
+				// reaches it in one representation only)
+				fn := c.ev.ctx.Store().Builtins.Globals[u.name]
+				for ia, A := range reprs(a) {
+					if rc.Take() {
+						f := core.Fields{"op": u.name, "a": a.String(), "via": "api", "repr": reprName(ia == 1)}
+						in := u.name + "(" + a.String() + "[" + reprName(ia == 1) + "])"
+						rc.Guard(f, func() string { return in }, func() { c.check(f, in, exp, observeTS(py.Call(fn, py.Tuple{A}, nil))) })
+					}
+				}
+			}
 			if rc.Take() {
 				expr := strings.Replace(u.src, "%s", lit(a), 1)
 				f := core.Fields{"op": u.name, "a": a.String(), "via": "source"}
@@ -501,6 +520,168 @@ func c07Run(rc *core.RunCtx) {
 				expr := "int(" + pyStrLit(t) + ", " + itoa(base) + ")"
 				f := core.Fields{"op": "int-from-text", "text": t, "base": itoa(base), "via": "source"}
 				rc.Guard(f, func() string { return expr }, func() { c.check(f, expr, e, observeT(c.ev.Eval(expr))) })
+			}
+		}
+	}
+}
+
+// c07opd is an operand of a history step: a value in one representation (machine word,
+// arbitrary precision, or bool), built afresh for every use.
+type c07opd struct {
+	v    *big.Int
+	repr string // nat big bool
+}
+
+func (o c07opd) obj() py.Object {
+	switch o.repr {
+	case "bool":
+		return py.NewBool(o.v.Sign() != 0)
+	case "big":
+		return pyBig(o.v)
+	}
+	return pyInt(o.v)
+}
+
+func (o c07opd) String() string { return o.v.String() + "[" + o.repr + "]" }
+
+// res: what the operand itself must still look like after any operation
+func (o c07opd) res() Res {
+	if o.repr == "bool" {
+		return boolRes(o.v.Sign() != 0)
+	}
+	return bres(o.v)
+}
+
+type c07probe struct {
+	op   string
+	a, b c07opd
+}
+
+// history: for every first step op(A, B) - A, B over a sub-lattice in both representations
+// plus True and False, through the plain and the in-place entry point - the result is
+// checked, then a fixed set of probe operations (bools converted to integers, floor
+// corrections, arbitrary-precision results next to the word limits) is checked, then the
+// first result and both operands are read again: integer objects are immutable, so no
+// operation may change a value another reference still holds (the interpreter shares
+// True, False and internal constants between all computations).
+func (c *c07) history(L []*big.Int, ops []c07bin) {
+	rc := c.rc
+	byName := map[string]c07bin{}
+	for _, op := range ops {
+		byName[op.name] = op
+	}
+	steps := append([]c07bin{}, ops...)
+	steps = append(steps,
+		c07bin{"lshift", "<<", py.Lshift, py.ILshift, func(a, b *big.Int) Res {
+			if b.Sign() < 0 {
+				return excRes("ValueError")
+			}
+			return bres(new(big.Int).Lsh(a, uint(b.Int64())))
+		}},
+		c07bin{"rshift", ">>", py.Rshift, py.IRshift, func(a, b *big.Int) Res {
+			if b.Sign() < 0 {
+				return excRes("ValueError")
+			}
+			return bres(new(big.Int).Rsh(a, uint(b.Int64())))
+		}},
+		c07bin{"pow", "**", func(a, b py.Object) (py.Object, error) { return py.Pow(a, b, py.None) }, nil, func(a, b *big.Int) Res {
+			return bres(new(big.Int).Exp(a, b, nil))
+		}},
+	)
+	var H []c07opd
+	for _, x := range c07Sub(L, rc.Quick()) {
+		H = append(H, c07opd{x, "nat"})
+		if x.IsInt64() {
+			H = append(H, c07opd{x, "big"})
+		}
+	}
+	H = append(H, c07opd{big.NewInt(1), "bool"}, c07opd{big.NewInt(0), "bool"})
+	n := func(s string) *big.Int { x, _ := new(big.Int).SetString(s, 10); return x }
+	T, F := c07opd{big.NewInt(1), "bool"}, c07opd{big.NewInt(0), "bool"}
+	nat := func(s string) c07opd { return c07opd{n(s), "nat"} }
+	bigr := func(s string) c07opd { return c07opd{n(s), "big"} }
+	probes := []c07probe{
+		{"add", T, nat("0")}, {"add", F, nat("0")}, {"add", nat("0"), T}, {"sub", nat("0"), T}, {"mul", T, nat("3")}, {"add", T, T}, {"and", T, T}, {"or", F, F}, {"xor", T, F},
+		{"add", nat("18446744073709551616"), T}, {"sub", T, nat("18446744073709551616")}, {"sub", nat("18446744073709551616"), T}, {"mul", nat("18446744073709551616"), T}, {"mul", nat("18446744073709551616"), F},
+		{"or", nat("18446744073709551616"), T}, {"and", nat("18446744073709551617"), T}, {"xor", nat("18446744073709551616"), F}, {"eq", T, nat("1")}, {"eq", F, nat("0")}, {"lt", F, T},
+		{"floordiv", nat("-18446744073709551617"), nat("2")}, {"mod", nat("-18446744073709551617"), nat("4294967296")}, {"divmod", bigr("-7"), bigr("2")}, {"floordiv", bigr("-7"), nat("2")}, {"mod", bigr("7"), bigr("-2")},
+		{"floordiv", nat("18446744073709551617"), nat("-3")}, {"divmod", nat("-9223372036854775808"), nat("-1")}, {"add", nat("9223372036854775807"), nat("1")}, {"sub", nat("-9223372036854775808"), T},
+		{"add", bigr("1"), bigr("1")}, {"mul", bigr("-1"), bigr("-1")}, {"add", nat("1"), nat("1")}, {"sub", nat("0"), nat("1")}, {"mul", nat("2"), nat("2")},
+	}
+	expected := func(op c07bin, a, b c07opd) Res {
+		if (op.name == "lshift" || op.name == "rshift") && b.v.BitLen() > 8 || op.name == "pow" && (b.v.Sign() < 0 || b.v.BitLen() > 3 || a.v.BitLen() > 130) {
+			return Res{}
+		}
+		e := op.model(a.v, b.v)
+		if a.repr == "bool" && b.repr == "bool" && (op.name == "and" || op.name == "or" || op.name == "xor") && e.Exc == "" {
+			return boolRes(e.Val != "int:0")
+		}
+		return e
+	}
+	for _, op := range steps {
+		for _, a := range H {
+			for _, b := range H {
+				for _, inplace := range []bool{false, true} {
+					if rc.Expired() || rc.Done() {
+						return
+					}
+					if inplace && op.iapi == nil {
+						continue
+					}
+					exp := expected(op, a, b)
+					if exp == (Res{}) {
+						continue // outside the model's range (huge shift count or exponent)
+					}
+					if !rc.Take() {
+						continue
+					}
+					op, a, b, inplace := op, a, b, inplace
+					name := op.name
+					if inplace {
+						name = "i" + name
+					}
+					f := core.Fields{"op": op.name, "a": a.String(), "b": b.String(), "via": "history", "step": name}
+					in := "r = py." + name + "(" + a.String() + ", " + b.String() + "); probes; r, operands again"
+					rc.Guard(f, func() string { return in }, func() {
+						A, B := a.obj(), b.obj()
+						var r py.Object
+						var err error
+						if inplace {
+							r, err = op.iapi(A, B)
+						} else {
+							r, err = op.api(A, B)
+						}
+						got := observeT(r, err)
+						c.check(f, in, exp, got)
+						if !got.matches(exp) {
+							return
+						}
+						dev := func(what, e, o string) {
+							rc.Deviate(core.Deviation{Fields: f, Input: in, Expected: e, Observed: o, Sig: "history:" + what})
+						}
+						for _, p := range probes {
+							po := byName[p.op]
+							pe := expected(po, p.a, p.b)
+							pg := observeT(po.api(p.a.obj(), p.b.obj()))
+							if !pg.matches(pe) {
+								dev("later-operation-wrong:"+p.op, "afterwards py."+p.op+"("+p.a.String()+", "+p.b.String()+") = "+pe.String(), pg.String())
+								return
+							}
+						}
+						if err == nil {
+							if again := observeT(r, nil); !again.matches(exp) {
+								dev("result-changed-later", "the result is still "+exp.String(), again.String())
+								return
+							}
+						}
+						// an in-place operation on an immutable integer returns a new value too
+						if ag := observeT(A, nil); !ag.matches(a.res()) {
+							dev("left-operand-changed", "left operand still "+a.res().String(), ag.String())
+						} else if bg := observeT(B, nil); !bg.matches(b.res()) {
+							dev("right-operand-changed", "right operand still "+b.res().String(), bg.String())
+						}
+					})
+				}
 			}
 		}
 	}
